@@ -174,6 +174,367 @@ def expand_shapes():
 # }}}
 
 
+# {{{ directed family: operands that CHANGE KIND while they are rewritten
+
+HALF = 0.5      # how 1/2 is written as a pymbolic constant (exactly representable)
+
+
+def collapse_subst(e, values):
+    """the expression `substitute(e, values)` returns (placeholders replaced by numbers, nothing
+    simplified): the real `pymbolic.substitute` where it does exactly that, the literal
+    replacement otherwise (substitution is not what C11 is about)"""
+    def lit(t):
+        if isinstance(t, p.Variable):
+            return values.get(t.name, t)
+        if isinstance(t, (p.Sum, p.Product)):
+            return type(t)(tuple(lit(c) for c in t.children))
+        if isinstance(t, p.Power):
+            return p.Power(lit(t.base), lit(t.exponent))
+        return t
+    ref = lit(e)
+    try:
+        import pymbolic
+        res = pymbolic.substitute(e, dict(values))
+        if dumps(expr_to_sx(res)) == dumps(expr_to_sx(ref)):
+            return res
+    except RecursionError:
+        raise
+    except Exception:
+        pass
+    return ref
+
+
+class CollapseGen:
+    """nested sums / products / powers over two variables whose CONSTANT PARTS are drawn so that,
+    with noticeable probability, they cancel to the neutral element of the node they stand in:
+    a sum whose numbers add up to 0 collapses to its single other term, a product whose numbers
+    multiply to 1 collapses to its single other factor, a product with a 0 collapses to a number,
+    a power with exponent 1 (0) collapses to its base (to 1) -- and that term / factor / base is
+    itself, more often than not, a node of the OTHER kind carrying a number of its own, so that
+    the rewritten operand has a different class than the written one, next to a number one level
+    up.  Neutral elements are also written as placeholders `z` (-> 0) and `k` (-> 1) that are
+    substituted afterwards (`substitute(e, {z: 0, k: 1})` leaves `Sum((.., 0))` behind), and
+    numbers occasionally as variable-free subexpressions."""
+
+    def __init__(self, rng, halves=0.0, placeholders=0.25, nvars=2):
+        self.rng = rng
+        self.halves = halves
+        self.placeholders = placeholders
+        self.vars = VARS[:nvars]
+        self.used_placeholder = False
+
+    # numbers ---------------------------------------------------------------------------------
+    def number(self):
+        r = self.rng
+        if r.random() < self.halves:
+            return r.choice([HALF, HALF, -HALF, 1.5])
+        return r.choice([-1, 0, 1, 2, 2, 3, -2, 4])
+
+    def nonneutral(self):
+        while True:
+            c = self.number()
+            if c not in (0, 1):
+                return c
+
+    def written(self, c, kind):
+        """the number `c` as an operand of a node of class `kind`: itself, a placeholder when it
+        is the neutral element, or a variable-free subexpression with that value"""
+        r = self.rng
+        k = r.random()
+        if k < self.placeholders:
+            if kind is p.Sum and c == 0:
+                self.used_placeholder = True
+                return p.Variable("z")
+            if kind is p.Product and c == 1:
+                self.used_placeholder = True
+                return p.Variable("k")
+        if k > 0.92 and isinstance(c, int):
+            return r.choice([p.Sum((c - 1, 1)), p.Product((-1, -c)), p.Power(c, 1),
+                             p.Sum((c, 0)), p.Product((1, c))])
+        return c
+
+    def summing_to(self, total):
+        r = self.rng
+        cs = [self.number() for _ in range(r.choice([0, 1, 1, 2]))]
+        cs.append(total - sum(cs))
+        return cs
+
+    def multiplying_to_one(self):
+        r = self.rng
+        opts = [[1], [1], [-1, -1], [1, 1], [-1, 1, -1]]
+        if self.halves:
+            opts += [[2, HALF], [HALF, 2], [-2, -HALF], [4, HALF, HALF], [HALF, 2, 1]]
+        return list(r.choice(opts))
+
+    # terms -------------------------------------------------------------------------------------
+    def var(self):
+        return p.Variable(self.rng.choice(self.vars))
+
+    def build(self, kind, body, numbers):
+        ops = [body] + [self.written(c, kind) for c in numbers]
+        self.rng.shuffle(ops)
+        return kind(tuple(ops))
+
+    def scaled(self, d):
+        """a product carrying a number"""
+        extra = [self.var()] if self.rng.random() < 0.3 else []
+        ops = [self.nonneutral(), self.term(d - 1), *extra]
+        self.rng.shuffle(ops)
+        return p.Product(tuple(ops))
+
+    def shifted(self, d):
+        """a sum carrying a number"""
+        extra = [self.var()] if self.rng.random() < 0.3 else []
+        ops = [self.nonneutral(), self.term(d - 1), *extra]
+        self.rng.shuffle(ops)
+        return p.Sum(tuple(ops))
+
+    def body(self, d, prefer):
+        k = self.rng.random()
+        if d <= 0 or k < 0.2:
+            return self.var()
+        if k < 0.75:
+            return prefer(d)
+        return self.term(d)
+
+    def collapsing_sum(self, d):
+        body = self.body(d - 1, self.scaled)
+        if self.rng.random() < 0.12:
+            return p.Sum((body,))
+        return self.build(p.Sum, body, self.summing_to(0))
+
+    def collapsing_product(self, d):
+        body = self.body(d - 1, self.shifted)
+        if self.rng.random() < 0.12:
+            return p.Product((body,))
+        return self.build(p.Product, body, self.multiplying_to_one())
+
+    def collapsing_power(self, d):
+        r = self.rng
+        body = self.body(d - 1, r.choice([self.scaled, self.shifted]))
+        return p.Power(body, r.choice([1, 1, 1, 2, 0]))
+
+    def to_number(self, d):
+        """a node with variables that rewrites to a number: a product with a factor 0, a power
+        with exponent 0; or a variable-free node"""
+        r = self.rng
+        k = r.random()
+        if k < 0.5:
+            return self.build(p.Product, self.term(d - 1), [0] + ([self.number()] if k < 0.2 else []))
+        if k < 0.7:
+            return p.Power(self.term(d - 1), 0)
+        return r.choice([p.Sum, p.Product])((self.number(), self.number()))
+
+    def mixed(self, kind, d, numbers=0.4):
+        r = self.rng
+        ops = [self.term(d - 1)]
+        for _ in range(r.randint(1, 3)):
+            ops.append(self.written(self.number(), kind) if r.random() < numbers
+                       else self.term(d - 1))
+        r.shuffle(ops)
+        return kind(tuple(ops))
+
+    def term(self, d):
+        r = self.rng
+        if d <= 0:
+            return self.var()
+        k = r.random()
+        if k < 0.12:
+            return self.var()
+        if k < 0.38:
+            return self.collapsing_sum(d)
+        if k < 0.64:
+            return self.collapsing_product(d)
+        if k < 0.74:
+            return self.collapsing_power(d)
+        if k < 0.82:
+            return self.to_number(d)
+        return self.mixed(r.choice([p.Sum, p.Product]), d)
+
+    def gen(self, depth):
+        """depth >= 2: a node with (mostly) a number among its operands and operands that change
+        kind"""
+        r = self.rng
+        if r.random() < 0.1:
+            return p.Power(self.gen(depth) if depth > 2 else self.term(depth - 1), r.choice([1, 2, 1, 0]))
+        kind = r.choice([p.Sum, p.Product])
+        ops = [self.term(depth - 1) for _ in range(r.choice([1, 1, 2, 3]))]
+        if r.random() < 0.8:
+            ops.append(self.nonneutral())
+            if r.random() < 0.2:
+                ops.append(self.written(self.number(), kind))
+        r.shuffle(ops)
+        return kind(tuple(ops))
+
+    def expression(self, depth):
+        """(expression, came out of a substitution?)"""
+        self.used_placeholder = False
+        e = self.gen(depth)
+        if self.used_placeholder:
+            return collapse_subst(e, {"z": 0, "k": 1}), True
+        return e, False
+
+    def collect_input(self):
+        """a sum of multiplicative terms (what TermCollector documents as its input) in which
+        like terms have coefficients that cancel and powers of one base have exponents that add
+        up to 0 or 1"""
+        r = self.rng
+        monos = []
+        for _ in range(r.randint(1, 3)):
+            fs = []
+            for v in r.sample(self.vars + ["a"], r.randint(1, 2)):
+                es = r.choice([[1], [2], [1, 1], [2, -1], [1, -1], [3, -2], [0], [1, 0]])
+                for ex in es:
+                    fs.append(p.Variable(v) if ex == 1 and r.random() < 0.7
+                              else p.Power(p.Variable(v), ex))
+            monos.append(fs)
+        terms = []
+        for fs in monos:
+            for c in (self.summing_to(r.choice([0, 0, 1, self.number()])) if r.random() < 0.7
+                      else [self.number()]):
+                ops = list(fs)
+                r.shuffle(ops)
+                if c != 1 or r.random() < 0.3:
+                    ops.insert(r.randint(0, len(ops)), c)
+                    if r.random() < 0.15:
+                        ops.insert(r.randint(0, len(ops)), self.number())
+                terms.append(ops[0] if len(ops) == 1 else p.Product(tuple(ops)))
+        if r.random() < 0.3:
+            terms.append(self.number())
+        r.shuffle(terms)
+        return p.Sum(tuple(terms))
+
+
+COLLAPSE_ATOMS = [x, y, -1, 0, 1, 2, HALF]
+COLLAPSE_NUMBERS = [-1, 0, 1, 2, HALF]
+
+
+def two_level_shapes(skip_integer_only=False):
+    """ALL two-level shapes over {x, y} x {-1, 0, 1, 2, 1/2}: a sum / product with a sum /
+    product / power operand, a power of a sum / product.  (`skip_integer_only`: without the
+    sum / product shapes that `small_shapes` already has, i.e. those without 1/2.)"""
+    out = []
+    for a, b, c in itertools.product(COLLAPSE_ATOMS, repeat=3):
+        if skip_integer_only and not any(isinstance(t, float) for t in (a, b, c)):
+            continue
+        for outer, inner in itertools.product((p.Sum, p.Product), repeat=2):
+            out.append(outer((a, inner((b, c)))))
+            out.append(outer((inner((a, b)), c)))
+    for a, b in itertools.product(COLLAPSE_ATOMS, repeat=2):
+        for n in (0, 1, 2):
+            for k in (p.Sum, p.Product):
+                out.append(k((a, p.Power(b, n))))
+                out.append(k((p.Power(a, n), b)))
+                out.append(p.Power(k((a, b)), n))
+    return out
+
+
+def collapse_chains(numbers, carried=None):
+    """three levels, the smallest shape in which an operand changes its class NEXT TO a number:
+    outer(c1, mid) with mid = middle(inner, n) and inner = innermost(c2, x); `mid` rewrites to
+    `inner` when n is neutral for `middle` (also written as a power with exponent 1), every
+    operand order at the two upper levels; c1, c2 from `carried`, n from `numbers`"""
+    out = []
+    kinds = (p.Sum, p.Product)
+    for k1, k3 in itertools.product(kinds, repeat=2):
+        for c1, c2 in itertools.product(numbers if carried is None else carried, repeat=2):
+            inner = k3((c2, x))
+            mids = [p.Power(inner, 1)]
+            for k2 in kinds:
+                for n in numbers:
+                    mids += [k2((inner, n)), k2((n, inner))]
+                mids.append(k2((inner,)))
+            for mid in mids:
+                out.append(k1((c1, mid)))
+                out.append(k1((mid, c1)))
+    return out
+
+
+def exact_tree(e, limit=1 << 24):
+    """the tree with every float written as the Fraction it IS, or None when a float is not a
+    small dyadic number (then nothing exact can be said about float arithmetic on it)"""
+    if isinstance(e, bool) or isinstance(e, int):
+        return e
+    if isinstance(e, float):
+        if e != e or e in (float("inf"), float("-inf")):
+            return None
+        f = Fraction(e)
+        if abs(f.numerator) > limit or f.denominator > limit:
+            return None
+        return int(f) if f.denominator == 1 else f
+    if isinstance(e, p.Variable):
+        return e
+    if isinstance(e, (p.Sum, p.Product)):
+        cs = [exact_tree(c, limit) for c in e.children]
+        return None if any(c is None for c in cs) else type(e)(tuple(cs))
+    if isinstance(e, p.Power):
+        b = exact_tree(e.base, limit)
+        if b is None or not rf._is_int(e.exponent) or e.exponent < 0:
+            return None
+        return p.Power(b, e.exponent)
+    return None
+
+
+def number_operands(node):
+    """how many operands of a Sum / Product are numbers (a constant in the sense of the
+    property and of the existing scan: an int / float / complex, not a variable-free tree)"""
+    return sum(1 for c in node.children if isinstance(c, (int, float, complex)))
+
+
+def nodes_with_path(e, path=()):
+    """independent walk: (path, node) for every node of a tree of sums, products, powers,
+    quotients, CSE wrappers (the fragment) -- anything else through the generic field scan"""
+    yield path, e
+    if isinstance(e, (p.Sum, p.Product)):
+        for i, c in enumerate(e.children):
+            yield from nodes_with_path(c, (*path, i))
+    elif isinstance(e, p.Power):
+        yield from nodes_with_path(e.base, (*path, "base"))
+        yield from nodes_with_path(e.exponent, (*path, "exponent"))
+    elif isinstance(e, p.Quotient):
+        yield from nodes_with_path(e.numerator, (*path, "numerator"))
+        yield from nodes_with_path(e.denominator, (*path, "denominator"))
+    elif isinstance(e, p.CommonSubexpression):
+        yield from nodes_with_path(e.child, (*path, "child"))
+    elif isinstance(e, p.Expression):
+        from ..oracles.scan import children
+        for i, c in enumerate(children(e)):
+            yield from nodes_with_path(c, (*path, i))
+
+
+def fold_nf_walk(res, commutative):
+    """at most one constant operand in each folded sum (either folder) / product (commutative
+    folder): (violation, path of the node) or None"""
+    for path, s in nodes_with_path(res):
+        if isinstance(s, p.Sum) or (commutative and isinstance(s, p.Product)):
+            if number_operands(s) > 1:
+                return "two-constants-in-" + type(s).__name__.lower(), path
+    return None
+
+
+def flatten_nf_walk(res):
+    """no sum directly under a sum, no product directly under a product, neutral elements
+    dropped (0 in a sum, 1 in a product; a 0 in a product is a product that should be 0)"""
+    for path, s in nodes_with_path(res):
+        if isinstance(s, p.Sum):
+            for c in s.children:
+                if isinstance(c, p.Sum):
+                    return "sum-under-sum", path
+                if isinstance(c, (int, float, complex)) and c == 0:
+                    return "zero-in-sum", path
+        if isinstance(s, p.Product):
+            for c in s.children:
+                if isinstance(c, p.Product):
+                    return "product-under-product", path
+                if isinstance(c, (int, float, complex)) and c == 1:
+                    return "one-in-product", path
+                if isinstance(c, (int, float, complex)) and c == 0:
+                    return "zero-in-product", path
+    return None
+
+# }}}
+
+
 # {{{ oracles shared by the streams
 
 GRID = [Fraction(v) for v in (0, 1, -1, 2, -2, 3)] + [Fraction(1, 2), Fraction(-3, 2), Fraction(5, 3)]
@@ -510,6 +871,125 @@ class RewriteStream(Stream):
             d["floats"] += 1
 
 
+class CollapseStream(RewriteStream):
+    """NORMAL-FORM clauses on operands that change kind while they are rewritten (a sum collapsing
+    to its single non-constant term, a product to one factor, a power to its base, a node with
+    variables to a number) next to a number one level up: the directed family `CollapseGen`
+    (depth 2-4, placeholders substituted by 0 / 1, numbers incl. 1/2 = 0.5) under all six rewrites,
+    plus, exhaustively, every two-level shape over {x, y} x {-1, 0, 1, 2, 1/2} and every
+    three-level collapse chain over these numbers.  Correspondence as in `rewrites` (the model
+    abstains on floats); oracles: the parent's (value, non-failure, scans), the value clause on
+    inputs with exactly representable floats (decided over the rationals they are), and the
+    normal-form clauses of flatten / fold by an independent walk, floats or not."""
+    name = "rewrites-collapsing"
+    n_quick = 1500
+    nf_ops = ("flatten", "fold-plain", "fold-comm")
+
+    def cases(self, rng, tier):
+        n = self.n_quick if tier == "quick" else self.n_quick * 12
+        for i in range(n):
+            op = OPS[i % len(OPS)]
+            g = CollapseGen(rng, halves=0.3 if i % 3 == 0 else 0.0,
+                            placeholders=0.35 if i % 2 else 0.0)
+            if op == "collect" and rng.random() < 0.7:
+                e, via = g.collect_input(), False
+            else:
+                deep = op in self.nf_ops
+                e, via = g.expression(rng.choice([2, 2, 3, 3, 4] if deep else [2, 2, 3]))
+            yield {"op": op, "expr": dumps(expr_to_sx(e)), "params": [],
+                   "via": "substitute" if via else "written"}
+        quick = tier == "quick"
+        # (the integer-only sum / product shapes run in `rewrites`: small_shapes, same oracles)
+        for e in two_level_shapes(skip_integer_only=True):
+            for op in (*self.nf_ops, "expand"):
+                yield {"op": op, "expr": dumps(expr_to_sx(e)), "params": []}
+        # quick: the numbers carried at the outer and the innermost level are not neutral there
+        for e in collapse_chains(COLLAPSE_NUMBERS, carried=[-1, 2, HALF] if quick else None):
+            for op in self.nf_ops if quick else (*self.nf_ops, "expand", "expand-nocomm"):
+                yield {"op": op, "expr": dumps(expr_to_sx(e)), "params": []}
+
+    _memo = (None, None)
+
+    def _run(self, pl):
+        key = (pl["op"], pl["expr"], tuple(pl["params"]))
+        if self._memo[0] != key:
+            self._memo = (key, super()._run(pl))
+        return self._memo[1]
+
+    def oracle(self, pl):
+        op = pl["op"]
+        e, res, ex = self._run(pl)
+        if not contains_float(loads(pl["expr"])):
+            f = super().oracle(pl)
+            if f is not None or ex is not None:
+                return f
+        else:
+            # floats that ARE small dyadic rationals: the clauses are decided on the rationals
+            ee = exact_tree(e)
+            if ex is not None:
+                if ee is None or not in_fragment(ee) or isinstance(ex, ZeroDivisionError):
+                    return None
+                if op == "collect" and not collect_input_ok(e):
+                    return None
+                return Failure(f"{op}-raises-{type(ex).__name__}-without-quotient",
+                               f"{e}: {type(ex).__name__}: {ex}", pl)
+            er = exact_tree(res)
+            if ee is not None and er is not None and in_fragment(ee):
+                f = self.exact_value_failure(op, e, res, ee, er)
+                if f is not None:
+                    f.payload = pl
+                    return f
+        # the normal-form clauses: counting / class tests only, independent walk
+        if op == "flatten":
+            v = flatten_nf_walk(res)
+            if v:
+                return Failure(f"flatten-nf-{v[0]}", f"{e!r} -> {res!r}: at {list(v[1])}", pl)
+        if op in ("fold-plain", "fold-comm"):
+            v = fold_nf_walk(res, op == "fold-comm")
+            if v:
+                return Failure(f"fold-nf-{v[0]}", f"{e!r} -> {res!r}: at {list(v[1])}", pl)
+        return None
+
+    @staticmethod
+    def exact_value_failure(op, e, res, ee, er):
+        """`value_failure` for trees whose floats are small dyadic rationals (`ee`, `er`: the same
+        trees with those floats written as Fractions; polynomial fragment, no division)"""
+        try:
+            fin, fout = rf.ratfun(ee), rf.ratfun(er)
+            if not rf.same_ratfun(fin, fout):
+                return Failure(f"{op}-value", f"{e!r}  ->  {res!r}: different polynomials")
+        except (rf.NotRational, rf.TooBig):
+            return None
+        return None
+
+    def stats(self, pl, mo, io, acc):
+        super().stats(pl, mo, io, acc)
+        if "via" not in pl:
+            return
+        acc[pl["via"]] = acc.get(pl["via"], 0) + 1
+        if pl["op"] not in self.nf_ops:
+            return
+        # how often the family does what it is for: an operand of the root that is rewritten to
+        # another class while the root holds a number
+        e = sx_to_expr(loads(pl["expr"]))
+        if not isinstance(e, (p.Sum, p.Product)) or number_operands(e) == 0:
+            return
+        for c in e.children:
+            if isinstance(c, p.Expression):
+                try:
+                    r = run_op(pl["op"], c)
+                except RecursionError:
+                    raise
+                except Exception:
+                    continue
+                if type(r) is not type(c):
+                    k = f"{type(c).__name__}->{type(r).__name__ if isinstance(r, p.Expression) else 'number'}"
+                    d = acc.setdefault("operand_changed_kind", {})
+                    d[k] = d.get(k, 0) + 1
+                    if isinstance(r, (p.Sum, p.Product)) and number_operands(r):
+                        acc["number_at_both_levels"] = acc.get("number_at_both_levels", 0) + 1
+
+
 class AllNodesStream(RewriteStream):
     """flatten and both folders on every node type (type-directed generator, no floats)"""
     name = "rewrites-all-node-types"
@@ -810,7 +1290,7 @@ PROP = Prop(
     theorems=[],
     extractors=[extract],
     streams=[RewriteStream(), AllNodesStream(), TableRewriteStream(), TableAllNodesStream(),
-             ValidatedExpandStream(), EqualPolysStream()],
+             ValidatedExpandStream(), EqualPolysStream(), CollapseStream()],
     probes=[probes],
     trusted_base=["Lean 4.33 kernel + Mathlib (Field, zpow, ring/field_simp); axioms propext, Classical.choice, Quot.sound only",
                   "harness serialisation; outputs of collect/expand are compared after sorting the children of every Sum/Product on both sides (TermCollector iterates a frozenset: order depends on string hashes)",
